@@ -19,6 +19,10 @@ struct Case {
     spec: NetSpec,
     wseed: u32,
     xseed: u32,
+    /// Network::set_accumulation(skip, loop) is called after the block was added (must not affect the block)
+    net_acc: Option<(Acc, Acc)>,
+    /// block input class: 0 ordinary, 1 all-zero
+    zero_input: bool,
 }
 
 fn decode(tape: &[u32]) -> Case {
@@ -33,7 +37,7 @@ fn decode(tape: &[u32]) -> Case {
     if t.bool() {
         layers.push(LayerSpec::Dense { out: t.usize(1, 5), act: gen_act(&mut t, &o), bias: t.bool(), dropout: None });
     }
-    Case { spec: NetSpec { input, layers }, wseed: t.raw(), xseed: t.raw() }
+    Case { spec: NetSpec { input, layers }, wseed: t.raw(), xseed: t.raw(), net_acc: if t.chance(1, 3) { Some((ACCS[t.pick(5)], ACCS[t.pick(5)])) } else { None }, zero_input: t.chance(1, 8) }
 }
 
 /// `acc(base; others)` computed element-wise by the harness itself (no library tensor arithmetic,
@@ -75,9 +79,17 @@ fn check(case: &Case, ev: &mut CaseEv) -> CheckResult {
     let l1_outskip = loops == 1 && outskips && matches!(acc, Acc::Overwrite | Acc::Mean);
 
     let mut net = build(spec).map_err(|p| Fail::new(format!("valid feedback network rejected: {} ({:?})", p, spec)))?;
+    if let Some((sa, la)) = case.net_acc {
+        net.set_accumulation(sa.lib(), la.lib());
+        ev.class("Network::set_accumulation called after the block was added");
+    }
     let ps = seeded_params(&net, spec, case.wseed, 1, 1.0);
     apply_params(&mut net, &ps);
-    let x = payload(case.xseed, 3, count(&spec.input), 1.0);
+    let mut x = payload(case.xseed, 3, count(&spec.input), 1.0);
+    if case.zero_input {
+        x.iter_mut().for_each(|v| *v = 0.0);
+        ev.class("all-zero block input");
+    }
     let xt = tens::build(&spec.input, &x);
 
     // model
